@@ -616,49 +616,79 @@ func c01r4(c *Ctx) {
 		return
 	}
 	x, _ := entryContext(r.Entry)
-	e := c.P.Env(r.Entry)
 	type bc struct {
 		acct, key, delta string
 		pos              string
 	}
-	var calls []bc
-	for _, b := range r.Entry.Blocks {
-		for _, in := range b.Instrs {
-			call, ok := in.(*ssa.Call)
-			if !ok || call.Call.StaticCallee() == nil || !reachesInvoke(c.P, call.Call.StaticCallee(), "AccountDataHandler.SaveKeyValue", 0) {
-				continue
+	// The amount applied to each side is read where it is applied (the Add onto an entry's Value, in whatever helper), the
+	// key where the entry is saved; both in the entry point's terms.
+	var debit, credit *bc
+	isAdd := func(in ssa.Instruction) (string, bool) {
+		if call, ok := in.(*ssa.Call); ok && bigMethod(call) == "Add" {
+			return "Add", true
+		}
+		return "", false
+	}
+	sideOf := func(org string) string {
+		switch org {
+		case "read:" + x.snd:
+			return "snd"
+		case "read:" + x.dst:
+			return "dst"
+		}
+		return ""
+	}
+	for _, s := range c.P.EffectSites(r.Entry, "valueadd", isAdd) {
+		call := s.In.(*ssa.Call)
+		ld, ok := call.Call.Args[0].(*ssa.UnOp)
+		if !ok {
+			continue
+		}
+		fa, ok := ld.X.(*ssa.FieldAddr)
+		if !ok || !isFieldOf(fa, "esdt.ESDigitalToken", "Value") {
+			continue
+		}
+		side := sideOf(entryOrigin(s.Env, fa.X, 0))
+		if side == "" {
+			continue
+		}
+		// the addend that is not the Value itself
+		delta := ""
+		for _, a := range call.Call.Args[1:] {
+			if t := s.Env.Term(a); t != s.Env.Term(call.Call.Args[0]) {
+				delta = t
 			}
-			var y bc
-			for _, a := range call.Call.Args {
-				switch {
-				case strings.HasSuffix(a.Type().String(), modPath+".UserAccountHandler"):
-					y.acct = e.Term(a)
-				case a.Type().String() == "[]byte":
-					y.key = e.Term(a)
-				case isBigIntPtr(a.Type()):
-					y.delta = e.Term(a)
-				}
-			}
-			y.pos = c.P.InstrPos(call)
-			if y.delta != "" {
-				calls = append(calls, y)
-			}
+		}
+		y := &bc{delta: delta, pos: c.P.InstrPos(call)}
+		if side == "snd" {
+			debit = y
+		} else {
+			credit = y
 		}
 	}
-	var debit, credit *bc
-	for i := range calls {
-		if calls[i].acct == x.snd {
-			debit = &calls[i]
+	bal := balancePrefix(c.P)
+	for _, s := range c.P.EffectSites(r.Entry, "save", isBalanceSave(c.P)) {
+		call := s.In.(ssa.CallInstruction)
+		ks := keyShape(s.Env, call.Common().Args[0], 0)
+		if ks == nil || ks.Prefix != bal {
+			continue
 		}
-		if calls[i].acct == x.dst {
-			credit = &calls[i]
+		org := accountOrigin(s.Env, writtenAccount(call), 0)
+		if len(org) != 1 {
+			continue
+		}
+		switch {
+		case org[0] == "param:"+x.snd && debit != nil:
+			debit.key = ks.String()
+		case org[0] == "param:"+x.dst && credit != nil:
+			credit.key = ks.String()
 		}
 	}
 	construct := "ESDTTransfer: debit and credit use one quantity and one key"
 	switch {
 	case debit == nil || credit == nil:
 		c.Fail(rule, "violation", FuncName(r.Entry), construct, c.P.Pos(r.Entry.Pos()), "cannot find both the sender debit and the destination credit")
-	case debit.delta == "neg("+credit.delta+")" && debit.key == credit.key && credit.delta == "bigBytes("+x.arg(1)+")":
+	case debit.delta == "neg("+credit.delta+")" && debit.key == credit.key && debit.key != "" && credit.delta == "bigBytes("+x.arg(1)+")":
 		c.OK(rule, FuncName(r.Entry), construct, credit.pos, "debit "+debit.delta+", credit "+credit.delta+", key "+credit.key)
 	default:
 		c.FailX(Oblig{Rule: rule, Func: FuncName(r.Entry), Construct: construct, Pos: credit.pos, Kind: "violation",
@@ -765,7 +795,7 @@ func loadedAccountSaved(c *Ctx, rule, tag string, only map[*ssa.Function]bool) {
 				barriers[s] = true
 			}
 			// edges on which the account is known to be nil: nothing was modified
-			nilCut := map[edge]bool{}
+			nilCut := errorEdgesOfFn(fn)
 			for ed, fs := range e.EdgeFacts() {
 				for _, f := range fs {
 					if !f.Lin && f.Pos && f.Atom == nilAtom(a.t) {
@@ -928,7 +958,7 @@ func c01r6(c *Ctx) {
 				}
 			}
 		}
-		cut := map[edge]bool{}
+		cut := errorEdgesOfFn(fn)
 		for b := range passBlocks {
 			for _, s := range b.Succs {
 				cut[edge{b, s}] = true
